@@ -3859,6 +3859,17 @@ class ScoreVariant(object):
 
                     # make a copy of the object
                     o_copy = copy(o)
+                    # copy(o) is shallow: give the copy its own mutable
+                    # attribute values (symbolic_duration, articulations,
+                    # ornaments, technical, ...), otherwise editing the
+                    # unfolded part changes the original part and every
+                    # other copy of the object (the attributes that refer
+                    # to other objects are rebuilt by replace_refs below)
+                    for attr, value in list(vars(o_copy).items()):
+                        if attr not in o._ref_attrs and isinstance(
+                            value, (list, dict, set)
+                        ):
+                            setattr(o_copy, attr, copy(value))
                     # add it to the set of new objects (for which the refs will
                     # be replaced)
                     o_new.add(o_copy)
